@@ -8,6 +8,7 @@ import (
 	"math/rand"
 	"os"
 	"path/filepath"
+	"sort"
 	"strings"
 )
 
@@ -273,6 +274,8 @@ func (osObj *VirtualOS) Environ() []string {
 	for k, v := range osObj.env {
 		result = append(result, k+"="+v)
 	}
+	// The same environment is listed the same way every time
+	sort.Strings(result)
 	return result
 }
 
